@@ -222,6 +222,55 @@ def expand_locals(root, expr, before=None, depth=3, keep=()):
     return ast.fix_missing_locations(e)
 
 
+def value_at(root, expr, at_line, keep=(), depth=12):
+    """Flow-sensitive straight-line expansion: every local read in `expr`
+    (evaluated at line `at_line`) is replaced by the right-hand side of the
+    last plain assignment to it that lexically encloses the use and is not
+    followed by another binding of the name before the use; the substituted
+    expression is expanded at the line of that assignment (so re-assignment
+    chains x = f(x) unfold).  Names in `keep`, parameters, loop variables
+    and names with a conditional / looped last definition stay symbolic."""
+    def enclosing_blocks(line):
+        out = []
+
+        def rec(stmts):
+            for st in stmts:
+                if getattr(st, 'lineno', 0) <= line <= (getattr(
+                        st, 'end_lineno', 0) or 0):
+                    out.append(stmts)
+                    for f in ('body', 'orelse', 'finalbody'):
+                        b = getattr(st, f, None)
+                        if isinstance(b, list) and b and isinstance(
+                                b[0], ast.stmt):
+                            if b[0].lineno <= line <= (b[-1].end_lineno or 0):
+                                rec(b)
+        rec(root.body if hasattr(root, 'body') else [])
+        return out
+
+    def expand(e, line, d):
+        if d <= 0:
+            return e
+        blocks = enclosing_blocks(line)
+
+        class Sub(ast.NodeTransformer):
+            def visit_Name(self, n):
+                if not isinstance(n.ctx, ast.Load) or n.id in keep:
+                    return n
+                allb = [a for a in assigns_of(root, n.id)
+                        if a.lineno < line]
+                if not allb:
+                    return n
+                last = max(allb, key=lambda a: a.lineno)
+                if not (isinstance(last, ast.Assign) and len(last.targets)
+                        == 1 and isinstance(last.targets[0], ast.Name)):
+                    return n
+                if not any(last in b for b in blocks):
+                    return n        # defined in a sibling / nested block
+                return expand(_clone(last.value), last.lineno, d - 1)
+        return Sub().visit(e)
+    return ast.fix_missing_locations(expand(_clone(expr), at_line, depth))
+
+
 def linear_terms(e):
     """[(sign, source)] of a +/- chain; None if not a pure +/- chain."""
     out = []
